@@ -271,6 +271,14 @@ func zzC16NilDerefRegion(x, y slip.Object) bool {
 	return false
 }
 
+// zzC16BitRegion: known finding C16-bit-number-compare — exactly one of the
+// two is a slip.Bit and the other is a number.
+func zzC16BitRegion(x, y slip.Object) bool {
+	_, bx := x.(slip.Bit)
+	_, by := y.(slip.Bit)
+	return bx != by && zzC16Fam(x) == zzC16FNum && zzC16Fam(y) == zzC16FNum
+}
+
 // VerifC16Pair: for a pair of objects of kinds (kx, ky), both argument orders:
 // each of eq, eql, equal, equalp returns t or nil (no condition, no Go fault),
 // eq => eql => equal => equalp, and each predicate is symmetric.
@@ -286,8 +294,9 @@ func VerifC16Pair(kx int, ky int) {
 	vrt.Reach("compared")
 	// eq and equal
 	vrt.Assert(zzC16IsBool(xy[0]) && zzC16IsBool(yx[0]), "eq does not return a boolean")
-	vrt.Assert(zzC16IsBool(xy[2]) && zzC16IsBool(yx[2]), "equal does not return a boolean")
 	vrt.Assert(xy[0].val == yx[0].val, "eq is not symmetric")
+	vrt.Carve("C16-bit-number-compare", zzC16BitRegion(x, y))
+	vrt.Assert(zzC16IsBool(xy[2]) && zzC16IsBool(yx[2]), "equal does not return a boolean")
 	vrt.Assert(xy[2].val == yx[2].val, "equal is not symmetric")
 	vrt.Assert(!xy[0].val || xy[2].val, "eq but not equal")
 	// equalp
@@ -426,6 +435,18 @@ func zzC16Pow2(d *big.Int) bool {
 // some member is a float (or a ratio wider than a float64 mantissa) and some
 // other member is an exact number that does not fit that mantissa.
 func zzC16RoundRegion(a, b, c slip.Object) bool {
+	// element-wise inside lists/vectors of the same length
+	ea, oka := zzC16Elems(a)
+	eb, okb := zzC16Elems(b)
+	ec, okc := zzC16Elems(c)
+	if oka && okb && okc && len(ea) == len(eb) && len(eb) == len(ec) {
+		for i := range ea {
+			if zzC16RoundRegion(ea[i], eb[i], ec[i]) {
+				return true
+			}
+		}
+		return false
+	}
 	all := []slip.Object{a, b, c}
 	for i, f := range all {
 		bits := zzC16FloatBits(f)
@@ -445,6 +466,16 @@ func zzC16RoundRegion(a, b, c slip.Object) bool {
 	return false
 }
 
+func zzC16Elems(x slip.Object) (slip.List, bool) {
+	switch tx := x.(type) {
+	case slip.List:
+		return tx, true
+	case *slip.Vector:
+		return tx.AsList(), true
+	}
+	return nil, false
+}
+
 // VerifC16Trans: transitivity of eql, equal, equalp over a triple of kinds,
 // wherever the three calls return (totality is VerifC16Pair's).
 func VerifC16Trans(kx int, ky int, kz int) {
@@ -453,6 +484,7 @@ func VerifC16Trans(kx int, ky int, kz int) {
 	y := zzC16Obj(ky, "y")
 	z := zzC16Obj(kz, "z")
 	vrt.Carve("C16-number-compare-rounds", zzC16RoundRegion(x, y, z))
+	vrt.Carve("C16-bit-number-compare", zzC16BitRegion(x, y) || zzC16BitRegion(y, z) || zzC16BitRegion(x, z))
 	for _, fn := range []string{"eql", "equal", "equalp"} {
 		xy := zzC16Pred(scope, fn, x, y)
 		yz := zzC16Pred(scope, fn, y, z)
@@ -476,6 +508,7 @@ func VerifC16GoEqual(kx int, ky int, kz int) {
 	yz := slip.ObjectEqual(y, z)
 	xz := slip.ObjectEqual(x, z)
 	vrt.Reach("compared")
+	vrt.Carve("C16-bit-number-compare", zzC16BitRegion(x, y) || zzC16BitRegion(y, z) || zzC16BitRegion(x, z))
 	vrt.Assert(xy == yx, "Equal is not symmetric")
 	vrt.Carve("C16-number-compare-rounds", zzC16RoundRegion(x, y, z))
 	vrt.Assert(!(xy && yz) || xz, "Equal is not transitive")
